@@ -37,8 +37,16 @@ Definition is_one_of (s : str) (l : list str) : bool := existsb (str_eqb s) l.
 (* ------------------------------------------------------------------ boxes *)
 Inductive mhdr := Vmhd | Smhd | Sthd | Nmhd.
 
-(* avc.DecConfRec as built by CreateAVCDecConfRec (ChromaFormat 1, bit depths 0, no SPS ext: constants) *)
-Record avcc := mkAvcC { ac_profile : N; ac_compat : N; ac_level : N; ac_sps : list str; ac_pps : list str }.
+(* avc.DecConfRec as built by CreateAVCDecConfRec: profile/compatibility/level, the parameter sets, and
+   ChromaFormat / BitDepthLumaMinus1 / BitDepthChromaMinus1 copied from the parsed SPS (since repo commit 4c725fa;
+   before, the constants 1/0/0: finding C19-F5).  NumSPSExt 0 and NoTrailingInfo false are constants. *)
+Record avcc := mkAvcC { ac_profile : N; ac_compat : N; ac_level : N; ac_sps : list str; ac_pps : list str;
+                        ac_chroma : N; ac_bdl : N; ac_bdc : N }.
+
+(* what the model needs from avc.ParseSPSNALUnit(sps, false):
+   (Width, Height, (byte(Profile), byte(ProfileCompatibility), byte(Level),
+                    (ChromaFormatIDC, BitDepthLumaMinus8, BitDepthChromaMinus8))) *)
+Definition avc_info := (N * N * (N * N * N * (N * N * N)))%type.
 
 (* hevc.DecConfRec as built by CreateHEVCDecConfRec: hc_cfg = the values copied from the parsed SPS
    (profile space, tier, profile idc, compatibility flags, constraint flags, level idc, chroma format,
@@ -294,8 +302,8 @@ Definition set_stpp (t : trak) (ns schema mime : str) : outcome * trak :=
   (OOk, stsd_add t (mkSE (BS "stpp") 1 0 0 0 (CfgStpp ns schema mime))).
 
 Section Parsers.
-  (* avc.ParseSPSNALUnit(sps, false): Some (width, height, profile, compat, level) or None on error *)
-  Variable avc_parse : str -> option (N * N * (N * N * N)).
+  (* avc.ParseSPSNALUnit(sps, false): Some avc_info or None on error *)
+  Variable avc_parse : str -> option avc_info.
   (* hevc.ParseSPSNALUnit(sps): Some (ImageSize width, height, cfg values) or None *)
   Variable hevc_parse : str -> option (N * N * list N).
 
@@ -306,8 +314,10 @@ Section Parsers.
     | sps0 :: _ =>
         match avc_parse sps0 with
         | None => None
-        | Some (_, _, (p, c, l)) =>
-            Some (if incl then mkAvcC p c l spss ppss else mkAvcC p c l [] [])
+        | Some (_, _, (p, c, l, (cf, bl, bc))) =>
+            (* values that do not fit the 2-/3-bit fields of the record are an error *)
+            if (3 <? cf) || (7 <? bl) || (7 <? bc) then None
+            else Some (if incl then mkAvcC p c l spss ppss cf bl bc else mkAvcC p c l [] [] cf bl bc)
         end
     end.
 
